@@ -212,13 +212,13 @@ def int_content(x):
 
 def der_int(x):
     c = int_content(x)
-    return b'\x02' + der.encode_length(len(c)) + c
+    return b'\x02' + rfc8017.der_len(len(c)) + c
 
 
 def der_sig(r, s):
     """DER of SEQUENCE { r INTEGER, s INTEGER }"""
     body = der_int(r) + der_int(s)
-    return b'\x30' + der.encode_length(len(body)) + body
+    return b'\x30' + rfc8017.der_len(len(body)) + body
 
 
 def binary_sig(r, s, ob):
